@@ -94,8 +94,8 @@ impl Prop for C05 {
     }
     fn runs(&self, tier: Tier) -> u64 {
         match tier {
-            Tier::Quick => 6_000,
-            Tier::Thorough => 200_000,
+            Tier::Quick => 10_000,
+            Tier::Thorough => 150_000,
             Tier::Tiny => 20,
         }
     }
